@@ -9,6 +9,8 @@ import re
 from vlib import metagram
 from vlib.core import REPO, AnalysisError, Report
 from vlib.precedence import python_precedence
+from vlib.match import FI, X, atoms, calls, nodes
+from vlib.norm import helper_closure
 from vlib.srcindex import SourceIndex, unparse, walk_no_nested
 
 EXPLANATION = (
@@ -85,12 +87,7 @@ def rule_d(rep: Report) -> None:
 	rep.consulted(m.relpath)
 	f = m.func('Rules._collect_keyword')
 	# the Patterns branch must iterate the group and call the collector on each entry (directly or through a recursive helper)
-	branch = next((n for n in ast.walk(f.node) if isinstance(n, ast.If) and 'isinstance(root, Patterns)' in unparse(n.test)), None)
-	recursive = False
-	if branch is not None:
-		for n in ast.walk(ast.Module(body=branch.body, type_ignores=[])):
-			if isinstance(n, ast.Call) and isinstance(n.func, ast.Attribute) and n.func.attr == '_collect_keyword':
-				recursive = True
+	recursive = any(isinstance(n, ast.Call) and isinstance(n.func, ast.Attribute) and n.func.attr == '_collect_keyword' for g in helper_closure(f, 1) for n in ast.walk(g.node))
 	# which terminals would be lost: string terminals that occur only nested, and that some regexp terminal of the grammar matches
 	text = _read(PY_GRAM)
 	tree = metagram.read_grammar(text, PY_GRAM)
@@ -108,9 +105,21 @@ def rule_d(rep: Report) -> None:
 	at_risk = sorted(t for t in nested - top if any(_fullmatch(rx, t) for rx in regexps))
 	r.check(recursive, 'collector-recursive', f.where, f'Rules._collect_keyword no longer descends into nested groups: terminals that occur only inside ( )?/( )*/[ ] are not keywords any more; of those, {at_risk} match a regexp terminal (e.g. `name`), so `lambda: x` is tokenised as a name and rejected / mis-parsed', unparse(f.node)[:200])
 	kw = m.func('Rules.keywords')
-	r.check('self._collect_keyword(pattern) for pattern in self.values()' in unparse(kw.node), 'all-rules-collected', kw.where, 'Rules.keywords no longer collects over every rule of the rule set')
+	kx = X(kw)
+	whole = False
+	for g in nodes(kx, (ast.For, ast.comprehension)):
+		it = g.iter
+		if isinstance(it, ast.Call) and unparse(it.func) in ('self.values', 'self.items') and not it.args:
+			whole = True
+	r.check(whole and bool(calls(kx, '_collect_keyword')), 'all-rules-collected', kw.where, 'Rules.keywords no longer collects over every rule of the rule set (self.values())')
 	cmp_ = idx.mod(SYNTAX_PY).func('SyntaxParser._compare_token')
-	r.check('token.string in self.rules.keywords' in unparse(cmp_.node), 'keywords-excluded-from-regexp', cmp_.where, 'SyntaxParser._compare_token no longer refuses keywords for regexp terminals')
+	cx = X(cmp_)
+	rx_calls = calls(cx, ('re.fullmatch', 're.match', 're.search'))
+	if not rx_calls:
+		r.skip('keywords-excluded-from-regexp', cmp_.where, '_compare_token no longer matches regexp terminals with re.fullmatch')
+	for rc_ in rx_calls:
+		known = atoms(cx, rc_)
+		r.check(any(not p_ and isinstance(a, ast.Compare) and isinstance(a.ops[0], ast.In) and unparse(a.comparators[0]).endswith('rules.keywords') and unparse(a.left).endswith('.string') for a, p_ in known), 'keywords-excluded-from-regexp', cmp_.where, f'SyntaxParser._compare_token must refuse keywords for regexp terminals (conditions at the regexp match: {[(unparse(a), p_) for a, p_ in known]})', unparse(rc_))
 	r.note(f'string terminals of py_gram.lark that occur only inside nested groups and match a regexp terminal: {at_risk}')
 
 
@@ -261,19 +270,27 @@ def rule_b(rep: Report) -> None:
 	m = idx.mod(SYNTAX_PY)
 	rep.consulted(SYNTAX_PY)
 	f = m.func('SyntaxParser.parse')
-	rets = [n for n in walk_no_nested(f.node) if isinstance(n, ast.Return)]
-	r.check(len(rets) == 1 and rets[0] in f.node.body, 'single-return', f.where, f'parse has {len(rets)} return statements (or a conditional one)')
-	# a top-level `if <steps != length>: raise Errors.Syntax` must precede the return
-	guard = None
-	for s in f.node.body:
-		if isinstance(s, ast.If) and any(isinstance(x, ast.Raise) and 'Errors.Syntax' in unparse(x) for x in s.body) and not s.orelse:
-			t = s.test
-			if isinstance(t, ast.Compare) and isinstance(t.ops[0], ast.NotEq) and {'step.steps', 'length'} == {unparse(t.left), unparse(t.comparators[0])}:
-				guard = s
-	ok = guard is not None and rets and guard.lineno < rets[0].lineno
-	r.check(bool(ok), 'guard-dominates-return', f.where, 'the return of parse is no longer dominated by `if step.steps != length: raise Errors.Syntax(...)`: trailing tokens would be dropped silently')
-	src = unparse(f.node)
-	r.check('length = len(tokens)' in src and 'tokens = self.tokenizer.parse(source)' in src, 'length-is-token-count', f.where, '`length` is no longer the number of tokens of the whole source')
+	fx = FI(f)
+	src_param = f.params()[1] if len(f.params()) > 1 else 'source'
+	rets = [n for n in nodes(fx, ast.Return) if n.value is not None]
+	r.check(bool(rets), 'returns', f.where, 'parse no longer returns a tree')
+
+	def consumed_all(a: ast.AST) -> bool:
+		"""<x>.steps == len(<tokens of the whole source>)"""
+		if not (isinstance(a, ast.Compare) and len(a.ops) == 1 and isinstance(a.ops[0], ast.Eq)):
+			return False
+		sides = [a.left, a.comparators[0]]
+		steps = [x for x in sides if isinstance(x, ast.Attribute) and x.attr == 'steps']
+		lens = [x for x in sides if isinstance(x, ast.Call) and unparse(x.func) == 'len' and len(x.args) == 1]
+		if len(steps) != 1 or len(lens) != 1:
+			return False
+		toks = lens[0].args[0]
+		return isinstance(toks, ast.Call) and unparse(toks.func).endswith('tokenizer.parse') and len(toks.args) == 1 and unparse(toks.args[0]) == src_param
+
+	for ret in rets:
+		known = atoms(fx, ret)
+		r.check(any(p_ and consumed_all(a) for a, p_ in known), 'guard-dominates-return', f.where, f'parse must return only when the number of consumed tokens equals the number of tokens of the whole source (else raise Errors.Syntax): trailing tokens would be dropped silently (conditions at the return: {[(unparse(a), p_) for a, p_ in known]})', unparse(ret))
+	r.check(any(isinstance(n, ast.Raise) and 'Errors.Syntax' in unparse(n) for n in ast.walk(fx)), 'raises-syntax-error', f.where, 'parse no longer raises Errors.Syntax for an incomplete match')
 
 
 def rule_c(rep: Report) -> None:
